@@ -351,6 +351,7 @@ def signature(sp, f, clause, extra=None):
 def report(ctx, sig, detail, cap=4):
     """ctx.violation, but at most `cap` replay files per family (the rest is counted in the evidence)."""
     key = json.dumps(sig, sort_keys=True)
+    ctx.extra.setdefault('_ops', []).append(set(k[4:] for k in sig if k.startswith('has_')) | {sig.get('leaf', '')})
     seen = ctx.extra.setdefault('_fam', {})
     seen[key] = seen.get(key, 0) + 1
     if seen[key] <= cap:
@@ -361,9 +362,16 @@ def report(ctx, sig, detail, cap=4):
 
 
 def finish_report(ctx):
+    ctx.extra.pop('_ops', None)
     fam = ctx.extra.pop('_fam', {})
     ctx.extra['contradicting_cases_total'] = sum(fam.values())
     ctx.extra['contradicting_families'] = len(fam)
+    lst = []
+    for key, n in sorted(fam.items()):
+        s = json.loads(key)
+        lst.append('%s @ %s [%s] x%d' % (s.get('clause'), s.get('ops'), ' '.join(
+            '%s=%s' % (k, s[k]) for k in ('space', 'weight', 'sigma', 'error', 'factory', 'option', 'at') if k in s), n))
+    ctx.extra['contradicting_family_list'] = lst[:400]
 
 
 # ----------------------------------------------------------------------------- TLC jobs
@@ -403,6 +411,17 @@ def impl_mismatches(res):
         for cl in re.findall(r'"([^"]+)"', m.group(3)):
             out.add((m.group(1), m.group(2), cl))
     return out
+
+
+def design_drift(ctx, design, confirmed_ops):
+    """Layer C mirrors the current code.  A cell where TLC finds C differing from A but where the real code
+    shows no contradiction for the same leaf / rule is model drift (exit 0), not a violation."""
+    for space, shp, clause in sorted(design):
+        ops = set(re.findall(r'\w+', shp))
+        if not any(ops & c for c in confirmed_ops):
+            msg = 'layer C predicts %s for %s, the real code does not contradict layer A there' % (clause, shp)
+            if msg not in ctx.drift:
+                ctx.drift_note(msg)
 
 
 def read_export(path):
